@@ -466,7 +466,7 @@ class Balancer:
             left_msb_zero = None
 
         if low > 0:
-            left_lsb = inner[high - 1 : 0]
+            left_lsb = inner[low - 1 : 0]
             left_lsb_zero = claripy.backends.vsa.is_true(left_lsb == 0)
         else:
             left_lsb = None
@@ -485,8 +485,9 @@ class Balancer:
             new_right = claripy.Concat(truism.args[1], claripy.BVV(0, len(left_lsb)))
             return Bool(truism.op, (new_left, new_right))
 
-        if low == 0 and truism.args[1].op == "BVV" and truism.op not in {"SGE", "SLE", "SGT", "SLT"}:
-            # single-valued rhs value with an unsigned operator
+        if low == 0 and truism.args[1].op == "BVV" and truism.op in {"UGE", "UGT"}:
+            # single-valued rhs value with an unsigned lower-bound operator: inner >= inner[high:0] >= value.
+            # (An upper bound or an equality on the low bits says nothing about the whole value.)
             # Eliminate Extract on lhs and zero-extend the value on rhs
             new_left = inner
             new_right = claripy.ZeroExt(inner.size() - truism.args[1].size(), truism.args[1])
